@@ -161,7 +161,7 @@ func (g *Gen) argOfKind(kind string, depth int, cur interface{}) (*Ex, interface
 		return e, evalOn(e, cur)
 	}
 	v := g.litOfKind(kind)
-	if s, ok := v.(string); ok && g.rng.Intn(2) == 0 {
+	if s, ok := v.(string); ok && g.rng.Intn(2) == 0 && rawSpellable(s) {
 		return &Ex{K: "raw", Name: s}, v
 	}
 	return &Ex{K: "lit", Lit: v}, v
